@@ -58,7 +58,10 @@ RouteTags(r) ==
               OnBoundary(p) == \E sh \in DOMAIN r.shapes : \E j \in DOMAIN r.shapes[sh] :
                                    LET a == r.shapes[sh][j]  b == r.shapes[sh][(j % Len(r.shapes[sh])) + 1] IN OnEdge(p, a, b)
               EndOnBoundary(c) == LET u == Unit(r.latA[c]) IN OnBoundary(u[1]) \/ OnBoundary(u[Len(u)])
+              \* (tagged apart: every connector whose cost changes has a direction-restricted end)
+              Restricted(c) == r.masks[c] # <<15, 15>>
           IN  IF \A c \in CC : EndOnBoundary(c) THEN <<"symmetry-changes-route-cost:an-end-lies-on-a-shape-boundary", r.sym[t].t>>
+              ELSE IF \A c \in CC : Restricted(c) THEN <<"symmetry-changes-route-cost:direction-restricted-end", r.sym[t].t>>
               ELSE <<"symmetry-changes-route-cost", r.sym[t].t>>
           : t \in {t \in DOMAIN r.sym : ~r.sym[t].thrown /\
               \E c \in DOMAIN r.latA : Integral(r.latA[c]) /\ Integral(r.sym[t].lat[c]) /\ ~SameCost(r.latA[c], r.sym[t].lat[c], r.P)}}
